@@ -2,6 +2,8 @@ import Driver.Proto
 import Driver.OpsBind
 import XsdataModel.Backends.Handler
 import XsdataModel.Backends.Writer
+import XsdataModel.Backends.Serializers
+import XsdataModel.Backends.Sources
 open Lean Proto Py Xs.Bind Xs.Backends OpsBind
 
 namespace OpsBackends
@@ -63,6 +65,45 @@ def run (op : String) (a : Json) : Option (Except String Json) :=
       pure <| match (generate benv Γ (serCfg a) v).bind (lxmlTree benv.py (isDatatype Γ) ind) with
         | .ok t => ok (jTree t)
         | .error e => jErr e
+  | "c08.tree_serializer" => some do
+      -- `TreeSerializer(config).render(obj)` through the model of tree.py / LxmlTreeBuilder.build
+      let Γ ← dCtx (field a "ctx")
+      let v ← dVal (field a "value")
+      let ind ← dIndent a
+      pure <| match treeSerializerRender benv Γ (isDatatype Γ) (serCfg a) { indent := ind } [] v with
+        | .ok t => ok (jTree t)
+        | .error e => jErr e
+  | "c08.lxml_writer" => some do
+      -- `XmlSerializer(config, writer=LxmlEventWriter).render(obj)`: declaration + printed tree
+      let Γ ← dCtx (field a "ctx")
+      let v ← dVal (field a "value")
+      let ind ← dIndent a
+      let decl := (field a "xml_declaration").getBool?.toOption.getD true
+      pure <| match xmlSerializerRenderLxml benv Γ (isDatatype Γ) (serCfg a) { indent := ind, xmlDeclaration := decl } [] v with
+        | .ok (d, t) => ok (jObj [("declaration", jStr d), ("tree", jTree t)])
+        | .error e => jErr e
+  | "c08.hsource" => some do
+      -- PushParser.from_string / from_bytes / from_path / parse: what `handler.parse` receives
+      let dBytes (j : Json) : Except String Bytes := do
+        let xs ← dList dNat j
+        pure (xs.map (·.toUInt8))
+      let enc ← dBytes (field a "encoded")
+      let W : World := { encode := fun _ => enc, fs := fun _ => none, tokenise := fun _ => [] }
+      let dummy : XTree := .node [] [] [] .passed none [] none
+      let src ← match field a "kind" with
+        | .str "str" => pure (Src.str [])
+        | .str "bytes" => (dBytes (field a "bytes")).map Src.bytes
+        | .str "path" => (dStr (field a "path")).map Src.path
+        | .str "file" => (dBytes (field a "bytes")).map Src.file
+        | .str "et_tree" => pure (Src.etTree dummy)
+        | .str "et_element" => pure (Src.etElement dummy)
+        | _ => .error "bad source kind"
+      let jB (b : Bytes) : Json := jList (fun (x : UInt8) => jNat x.toNat) b
+      pure <| ok <| match toHSource W src with
+        | .stream c => jObj [("stream", jB c)]
+        | .name p => jObj [("name", jStr p)]
+        | .tree _ => jObj [("tree", Json.null)]
+        | .element _ => jObj [("element", Json.null)]
   | "c08.indent" => some do
       let t ← dTree (field a "tree")
       let sp ← dStr (field a "space")
